@@ -64,6 +64,17 @@ def gen(n, ret='R', fail_at=None, tag='g'):
   return ret
 
 
+def slow_gen(tag='g', period=10.0):
+  """An endless generator that needs `period` (virtual) seconds per element:
+  the source a consumer is still waiting on when the server is told to stop."""
+  from vmc import vtime
+  i = 0
+  while True:
+    vtime.sleep(period)
+    yield (tag, i)
+    i += 1
+
+
 def make_list(n):
   return list(range(n))
 
